@@ -284,6 +284,67 @@ func c11Hostile(t *testing.T, kind, when int) (desc string) {
 	return desc
 }
 
+// c11During: a Set call lands exactly before file-system step k of a maintenance run (not while the bytes are being
+// written); nothing else happens afterwards; clean shutdown; restart: the silence must be there.
+func c11During(t *testing.T, k int) (steps int, desc string) {
+	synctest.Test(t, func(t *testing.T) {
+		fsys := vfs.NewFS()
+		vfs.Install(fsys)
+		defer vfs.Install(nil)
+		s, err := c11New(c11Path)
+		if err != nil {
+			panic(err)
+		}
+		stopc := make(chan struct{})
+		done := make(chan struct{})
+		go func() { s.Maintenance(50*time.Second, c11Path, stopc, nil); close(done) }()
+		ctx := context.Background()
+		mk := func(v string) *pb.Silence {
+			now := time.Now()
+			return &pb.Silence{MatcherSets: []*pb.MatcherSet{{Matchers: []*pb.Matcher{{Type: pb.Matcher_EQUAL, Name: "job", Pattern: v}}}},
+				StartsAt: ts(now), EndsAt: ts(now.Add(30 * time.Minute)), Comment: "c", CreatedBy: "v"}
+		}
+		if err := s.Set(ctx, mk("first")); err != nil {
+			panic(err)
+		}
+		time.Sleep(51 * time.Second)
+		synctest.Wait()
+		if err := s.Set(ctx, mk("second")); err != nil {
+			panic(err)
+		}
+		base := len(fsys.Log)
+		landed := false
+		fsys.Before = func(idx int, op vfs.Op) {
+			if idx-base == k && !landed && op.Kind != "write" {
+				landed = true
+				if err := s.Set(ctx, mk("during")); err != nil {
+					panic(err)
+				}
+			}
+		}
+		time.Sleep(50 * time.Second)
+		synctest.Wait()
+		steps = len(fsys.Log) - base
+		fsys.Before = nil
+		time.Sleep(5 * time.Second)
+		close(stopc)
+		<-done
+		if !landed {
+			return
+		}
+		want := c11Dump(s)
+		s2, err := c11New(c11Path)
+		if err != nil {
+			desc = fmt.Sprintf("the next start refuses the snapshot: %v", err)
+			return
+		}
+		if got := c11Dump(s2); got != want {
+			desc = fmt.Sprintf("a Set call landed before file-system step %d (%s) of a maintenance run; after a clean shutdown the next start loads a store that differs from the one in memory at shutdown (%d vs %d bytes of dump)", k, fsys.Log[base+k].Kind, len(got), len(want))
+		}
+	})
+	return
+}
+
 // c11Load runs the real loader on an image; returns the loaded dump.
 func c11Load(files map[string][]byte) (dump string, err error, pan any) {
 	fsys := vfs.NewFS()
@@ -497,6 +558,16 @@ func TestVerifC11Silences(t *testing.T) {
 			R.Executions++
 			if d := c11BigRoundTrip(t, c[0], c[1], c[2]); d != "" {
 				R.Violate("large-store-does-not-survive-restart", fmt.Sprintf("%d silences x %d matcher sets x %d-byte comment: %s", c[0], c[1], c[2], d), map[string]any{"rerun": true, "part": "silences-loader", "case": c})
+			}
+		}
+		for k, n := 0, 1; k < n; k++ {
+			R.Executions++
+			steps, d := c11During(t, k)
+			if steps > n {
+				n = steps
+			}
+			if d != "" {
+				R.Violate("change-during-maintenance-lost-by-clean-restart", d, map[string]any{"rerun": true, "part": "silences-loader", "step": k})
 			}
 		}
 		for k := range c11HostileKinds {
